@@ -11,6 +11,22 @@ import re
 
 
 PROPS = {
+    "C02": {
+        "coq_targets": ["theories/VM/Corr.vo", "theories/Lang/Rewrites.vo"],
+        "harness": ["c02"],
+        "tables": True,
+        "disagreement_is_violation": True,
+        "axioms": [],
+        "trusted_base": COMMON_TB + [
+            "harness/src/c02.rs: the rewrite rules on the generator's syntax trees (for-as-while with typed temporaries, for-step-1, while-as-do-while, do-while-as-while, do-until-as-do-while-not, select-as-if-chain, block-if-as-single-line-if, body-in-if-true), the enumeration of sites, the source printer, the comparison of two runs (output bytes, error code, values of the original's variables; error positions are not compared because rewriting moves lines)",
+            "Lang/Sem.v as the meaning of the core language (tied to the implementation by Corr.check_sem on every rewritten program, see C01); the theorems cover four of the seven rules, the others are decided by the runs only",
+            "textual rewriting of repository programs is line-based (FOR ... TO ... without STEP; WHILE/WEND); programs using files, ENVIRON or TIMER are excluded",
+        ],
+        "assumptions": [
+            "single-line IF: PRINT statements ending in ';' / ',' or empty are not placed before ELSE (the parser rejects `PRINT 1 ; ELSE`; outside this property)",
+            "for-as-while is not compared when the original ends with error 258 (STEP 0)",
+        ],
+    },
     "C15": {
         "coq_targets": ["theories/WF/VerifierProofs.vo"],
         "harness": ["c15"],
